@@ -17,14 +17,23 @@ RULE = (
     "classes of example.py (ExpansionStrategy, RemoveFrontOfPrefix, a prefix-splitting product with 2-4 children "
     "incl. size-0 atoms) and over synthetic classes with known counting sequences (1-4 children, atoms and "
     "non-atoms in any position, minimum sizes 0-3), each also reversed w.r.t. every child (Complement, Quotient); "
-    "plus the derived forms EquivalenceRule, its reverse and EquivalencePathRule; "
+    "plus (about 25% of the rule stream) the DERIVED forms built through to_equivalence_rule / to_reverse_rule(0) / "
+    "EquivalencePathRule of /repo: EquivalenceRule and EquivalenceRule(ReverseRule) of unions with 0-3 EMPTY siblings "
+    "around the one non-empty child in any position (synthetic classes: atom or non-atom, minimum size 0-4; word "
+    "classes all of whose one-letter extensions contain a pattern), equivalence paths of 1-5 steps walking up and down "
+    "a tower of such unions, i.e. mixing forward steps and reverse steps (EquivalenceRule of a ReverseRule), over both "
+    "universes, and the same three forms on a ONE-child CartesianProductStrategy rule or with a product step in the "
+    "path, where /repo's constructor raises NotImplementedError (recorded, not a violation) and only shifts() is "
+    "compared. The model is run on form 4/5/6, the kind of strategy the rule inherits and the descriptor of the one "
+    "class the rule hands to strategy.shifts (taken from the construction, not from rule.children); "
     "sub-term providers are wrapped and the sizes requested during get_terms(n), n = 0..N (N <= 12), recorded; "
     "compared with the model's read sets and with rule.shifts(). (comp, 30%) utils.compositions on k in -1..4, "
     "n in -1..10, bounded/unbounded parts, incl. max < min, negative minima, k <= 0. (shifts, 30%) the translated "
     "ReverseRule.shifts / CartesianProductStrategy.shifts / DisjointUnionStrategy.shifts / Quotient.__init__ run "
     "on stub arguments incl. negative and out-of-range idx (translator self-test). "
     "Non-trivial: rule case with a level that reads >= 3 distinct (provider,size) pairs (for a Quotient: also an "
-    "own-term or sibling read); comp case with k >= 2 and >= 2 compositions; shifts case with >= 2 children."
+    "own-term or sibling read; for a derived form: >= 3 levels computed, each with a read, or the one declared "
+    "shift of a product equivalence); comp case with k >= 2 and >= 2 compositions; shifts case with >= 2 children."
 )
 TECHNIQUE = (
     "Coq proof over definitions REGENERATED from the source on every run (Python-ast -> Gallina translator, "
@@ -36,16 +45,27 @@ LEVEL_TEXT = (
     "sizes <= n - product_shifts_i; union/complement rules read at exactly n and declare shifts 0; the reverse of a "
     "product w.r.t. child idx reads nothing below that child's minimum size, the original parent exactly at "
     "n - shift_0, sibling j at sizes <= n - shift_j and its own terms only below n, with the shifts computed by "
-    "ReverseRule.shifts from CartesianProductStrategy.shifts. compositions, the three shifts functions and "
+    "ReverseRule.shifts from CartesianProductStrategy.shifts. The derived forms (equivalence rule of a union, of "
+    "its reverse, equivalence path) read their one child exactly at n, never their own terms, and declare exactly "
+    "one shift, 0 — for EVERY descriptor of the class handed to strategy.shifts(class, (child,)) and for BOTH "
+    "DisjointUnionStrategy.shifts and CartesianProductStrategy.shifts (this universal quantification is how the "
+    "'(class, children) pair the strategy never produced' subtlety is covered); that shift equals the original union "
+    "rule's shift for that child, the reverse rule's shift for the original parent, and the sum of the shifts of a "
+    "path's steps; for a product the original rule declares the sum of the other children's minimum sizes instead "
+    "(equal for a one-child product). C10_all_forms_reads_respect_declared_shifts states the property for all seven "
+    "forms at once. compositions, the three shifts functions and "
     "Quotient's parent-shift arithmetic are re-translated from /repo on every run (Gen/*.v); the hand-written "
     "transcription of which provider get_terms calls (Count/ReadsModel.v) is tied by recording the calls of real "
-    "Rule/ReverseRule objects."
+    "Rule/ReverseRule/EquivalenceRule/EquivalencePathRule objects."
 )
 LEVEL_NOTE = (
     "Trusted: Coq kernel, the translator harness/translate.py (validated each run against the functions it "
     "translates), extraction + OCaml driver, the correspondence harness. Modelled not verified: the call structure "
     "of DisjointUnion/Complement/CartesianProduct/Quotient.get_terms (ReadsModel.v) and CartesianProduct.min_sizes/"
-    "max_sizes. Not proved: the bridge to the forest's productivity analysis (DESIGN C10 item 5); parameters "
+    "max_sizes; that EquivalenceRule / EquivalencePathRule count through a one-child DisjointUnion / Complement and "
+    "hand exactly their one child to strategy.shifts (derived_reads / derived_shifts of ReadsModel.v; for a product "
+    "strategy get_terms raises NotImplementedError in /repo, so there the modelled reads are only an upper bound "
+    "and only shifts() is compared). Not proved: the bridge to the forest's productivity analysis (DESIGN C10 item 5); parameters "
     "(extra_parameters) do not influence which sizes are read and are not modelled."
 )
 TRUSTED = [
@@ -54,6 +74,10 @@ TRUSTED = [
     "modelled, not verified: which sub-term provider get_terms calls (Count/ReadsModel.v: reads_union, "
     "reads_complement, reads_product, reads_quotient, product_min_sizes/max_sizes) — hand transcription of "
     "strategies/constructor/disjoint.py and cartesian.py, tied by the recorded reads of real rules",
+    "modelled, not verified: the derived forms (Count/ReadsModel.v: derived_reads, derived_shifts) — hand "
+    "transcription of EquivalenceRule.__init__/constructor, EquivalencePathRule.__init__/constructor and the inherited "
+    "AbstractRule.shifts of strategies/rule.py, tied by the recorded reads and shifts() of real derived rules; a path "
+    "is described by its first strategy and last class only (the model does not check that the steps chain)",
     "py_get returns a default where Python raises IndexError; py_assert truncates where Python raises "
     "AssertionError; both are outside the theorems' preconditions and the harness checks index ranges itself",
 ]
@@ -77,8 +101,13 @@ def _built(case):
     if k not in _RULES:
         if len(_RULES) > 5000:
             _RULES.clear()
-        classes, _ = _U().build_rule(case["spec"])
-        _RULES[k] = _U().descriptors(classes)
+        if case["spec"].get("derived"):
+            info = _U().derived_plan(case["spec"])  # from the spec alone: no rule code of /repo runs here
+            _RULES[k] = {"form": info["form"], "strat": info["strat"], "readable": info["readable"],
+                         "d": _U().descriptors([info["handed"]])[0]}
+        else:
+            classes, _ = _U().build_rule(case["spec"])
+            _RULES[k] = _U().descriptors(classes)
     return _RULES[k]
 
 
@@ -132,37 +161,77 @@ def _rand_word(rng, alph, lo, hi):
     return "".join(rng.choice(alph) for _ in range(rng.randint(lo, hi)))
 
 
-def _gen_derived(rng):
-    """equivalence rules, their reverses and equivalence paths (forms 0 / 2 of the model with one child)"""
-    r = rng.random()
-    if r < 0.3:
-        atom = int(rng.random() < 0.4)
-        leaf = [[rng.randint(0, 3), atom, 0 if atom else rng.randint(1, 2)]]
-        spec = {"universe": "series", "children": leaf, "form": 0, "idx": 0, "derived": "path", "depth": rng.randint(2, 3)}
-        return {"kind": "rule", "spec": spec, "N": rng.randint(2, 8)}
-    derived = "equiv" if rng.random() < 0.5 else "equiv_rev"
-    form = 0 if derived == "equiv" else 2
-    if r < 0.6:
-        atom = int(rng.random() < 0.4)
-        leaf = [[rng.randint(0, 3), atom, 0 if atom else rng.randint(1, 2)]]
-        spec = {"universe": "series", "children": leaf, "form": form, "idx": 0, "derived": derived}
-        return {"kind": "rule", "spec": spec, "N": rng.randint(2, 8)}
+def _gen_leaf(rng):
+    atom = int(rng.random() < 0.4)
+    return [rng.randint(0, 4), atom, 0 if atom else rng.randint(1, 2)]
+
+
+def _gen_words_equiv(rng):
+    """a word class all of whose one-letter extensions contain a pattern (so only `the word prefix` is non-empty)"""
     alph = "ab" if rng.random() < 0.75 else "abc"
-    for _ in range(20):
-        prefix = _rand_word(rng, alph, 0, 3)
-        pats = [prefix + x for x in alph]
-        spec = {"universe": "words", "prefix": prefix, "patterns": pats, "alphabet": alph, "strategy": "expansion",
-                "form": form, "idx": 0, "derived": derived}
+    prefix = _rand_word(rng, alph, 0, 3)
+    pats = set()
+    for x in alph:
+        w = prefix + x
+        pats.add(w[rng.randrange(len(w)):] if rng.random() < 0.5 else w)
+    return {"universe": "words", "prefix": prefix, "patterns": sorted(pats), "alphabet": alph, "strategy": "expansion"}
+
+
+def _gen_walk(rng, height, nmoves):
+    """start and moves (0 down, 1 up) of a walk staying inside 0..height"""
+    start = rng.randint(0, height)
+    j, moves = start, []
+    for _ in range(nmoves):
+        opts = ([0] if j > 0 else []) + ([1] if j < height else [])
+        mv = rng.choice(opts)
+        moves.append(mv)
+        j += 1 if mv else -1
+    return start, moves
+
+
+def _gen_derived(rng):
+    """equivalence rules, their reverses and equivalence paths (forms 4 / 5 / 6 of the model)"""
+    for _ in range(30):
+        r = rng.random()
+        if r < 0.4:
+            # paths
+            if rng.random() < 0.25:
+                spec = dict(_gen_words_equiv(rng), derived="path")
+                spec["start"], spec["moves"] = _gen_walk(rng, 1, rng.randint(1, 4))
+            else:
+                product = rng.random() < 0.2
+                tower = []
+                for _ in range(rng.randint(1, 4)):
+                    if product and rng.random() < 0.6:
+                        tower.append([0, 0, 1])
+                    else:
+                        ne = rng.randint(0, 2)
+                        tower.append([ne, rng.randint(0, ne), 0])
+                spec = {"universe": "series", "children": [_gen_leaf(rng)], "derived": "path", "tower": tower}
+                spec["start"], spec["moves"] = _gen_walk(rng, len(tower), rng.randint(1, 5))
+        else:
+            derived = "equiv" if rng.random() < 0.5 else "equiv_rev"
+            form = 0 if derived == "equiv" else 2
+            if r < 0.55:
+                # ONE-child product: shifts only
+                spec = {"universe": "series", "children": [_gen_leaf(rng)], "form": form + 1, "idx": 0, "derived": derived}
+            elif r < 0.8:
+                ne = rng.choice([0, 1, 1, 2, 3])
+                kids = [[0, -1, 0] for _ in range(ne)]
+                kids.insert(rng.randint(0, ne), _gen_leaf(rng))
+                spec = {"universe": "series", "children": kids, "form": form, "idx": 0, "derived": derived}
+            else:
+                spec = dict(_gen_words_equiv(rng), form=form, idx=0, derived=derived)
         try:
-            _U().build_rule(spec)
+            info = _U().derived_plan(spec)
         except ValueError:
             continue
-        return {"kind": "rule", "spec": spec, "N": rng.randint(2, 6)}
+        return {"kind": "rule", "spec": spec, "N": rng.randint(2, 8) if info["readable"] else 2}
     return _gen_comp(rng)
 
 
 def _gen_rule(rng):
-    if rng.random() < 0.12:
+    if rng.random() < 0.25:
         return _gen_derived(rng)
     form = rng.randrange(4)
     if rng.random() < 0.5:
@@ -227,6 +296,10 @@ def encode(case):
         if w in (1, 2):
             return [1, w, case["children"]]
         return [1, 3, case["children"], case["idx"]]
+    if case["spec"].get("derived"):
+        b = _built(case)
+        # shifts only (N = -1) where get_terms cannot run in /repo
+        return [3, b["form"], b["strat"], b["d"], case["N"] if b["readable"] else -1]
     return [2, case["spec"]["form"], _built(case), case["spec"]["idx"], case["N"]]
 
 
@@ -280,6 +353,22 @@ def impl(case):
         except IndexError:
             return {"out": -2}
     U = _U()
+    if case["spec"].get("derived"):
+        info = U.build_derived(case["spec"])
+        rule = info["rule"]
+        shifts = list(rule.shifts())
+        levels, exc = U.record_reads(rule, case["N"])
+        levels = [[list(r) for r in lv] for lv in levels]
+        # where the constructor of /repo raises NotImplementedError (equivalence of a product) only the declared
+        # shifts are compared with the model; whatever was read is still judged by the oracle
+        res = {"out": [shifts] + (levels if info["readable"] else []), "levels": levels,
+               "nchildren": len(rule.children), "readable": info["readable"], "nsteps": info["nsteps"],
+               "reverse_steps": info["reverse_steps"], "siblings": info["siblings"], "strat": info["strat"]}
+        if exc and not info["readable"] and exc.startswith("NotImplementedError at level 0"):
+            res["not_implemented"] = True
+        elif exc:
+            res["raised"] = exc
+        return res
     _, rule = U.build_rule(case["spec"])
     shifts = list(rule.shifts())
     levels, exc = U.record_reads(rule, case["N"])
@@ -346,7 +435,7 @@ def oracle(case, res):
                 return "Quotient min/max sizes %r" % (out[:2],)
         return None
     # rule: the recorded reads against the shifts the rule declares
-    shifts, levels = out[0], out[1:]
+    shifts, levels = out[0], res.get("levels", out[1:])
     if len(shifts) != res["nchildren"]:
         return "rule declares %d shifts for %d children" % (len(shifts), res["nchildren"])
     for n, lv in enumerate(levels):
@@ -373,6 +462,10 @@ def nontrivial(case, res):
         return len(case.get("children", case.get("shifts", []))) >= 2 and out != -2
     if not isinstance(out, list):
         return False
+    if case["spec"].get("derived"):
+        if not res.get("readable"):
+            return len(out[0]) == 1  # shifts only
+        return not res.get("raised") and len(out) >= 4 and all(out[1:])
     big = any(len(lv) >= 3 for lv in out[1:])
     if case["spec"]["form"] == 3:
         return big and any(p == -1 or p >= 1 for lv in out[1:] for p, _ in lv)
@@ -388,9 +481,25 @@ def classify(case, res):
     tags = [k]
     if k == "rule":
         s = case["spec"]
-        tags.append("rule:%s:form%d" % (s["universe"], s["form"]))
         if s.get("derived"):
-            tags.append("rule:derived:" + s["derived"])
+            d = "rule:derived:" + s["derived"]
+            tags += [d, d + ":" + s["universe"]]
+            if "strat" in res:
+                tags.append(d + (":product-strategy" if res["strat"] else ":union-strategy"))
+                if s["derived"] == "path":
+                    tags.append("rule:derived:path:steps=%d" % res["nsteps"])
+                    if res["reverse_steps"]:
+                        tags.append("rule:derived:path:reverse-step")
+                        tags.append("rule:derived:path:reverse-step:" + s["universe"])
+                        if res["reverse_steps"] < res["nsteps"]:
+                            tags.append("rule:derived:path:mixed-directions")
+                elif res["siblings"]:
+                    tags.append(d + ":empty-siblings")
+                tags.append("rule:derived:readable" if res["readable"] else "rule:derived:shifts-only")
+                if res.get("not_implemented"):
+                    tags.append("rule:derived:NotImplementedError")
+        else:
+            tags.append("rule:%s:form%d" % (s["universe"], s["form"]))
         out = res.get("out")
         if isinstance(out, list):
             tags.append("rule:k=%d" % len(out[0]))
@@ -440,6 +549,34 @@ def shrink(case):
             yield dict(case, N=case["N"] - 1)
         s = case["spec"]
         if s.get("derived"):
+            cands = []
+            if s["universe"] == "series":
+                kids = s["children"]
+                for i, (m, a, g) in enumerate(kids):
+                    if a < 0:
+                        cands.append(dict(s, children=kids[:i] + kids[i + 1:]))
+                    else:
+                        if m > 0:
+                            cands.append(dict(s, children=kids[:i] + [[m - 1, a, g]] + kids[i + 1:]))
+                        if g > 1:
+                            cands.append(dict(s, children=kids[:i] + [[m, a, 1]] + kids[i + 1:]))
+                if "tower" in s:
+                    for i, w in enumerate(s["tower"]):
+                        if w[0] > 0:
+                            cands.append(dict(s, tower=s["tower"][:i] + [[0, 0, w[2]]] + s["tower"][i + 1:]))
+            elif s["prefix"]:
+                p = s["prefix"]
+                cands.append(dict(s, prefix=p[1:], patterns=sorted({p[1:] + x for x in s["alphabet"]})))
+            if s["derived"] == "path" and "moves" in s and len(s["moves"]) > 1:
+                mv = s["moves"]
+                cands.append(dict(s, moves=mv[:-1]))
+                cands.append(dict(s, moves=mv[1:], start=s["start"] + (1 if mv[0] else -1)))
+            for c in cands:
+                try:
+                    info = _U().derived_plan(c)
+                except ValueError:
+                    continue
+                yield dict(case, spec=c, N=case["N"] if info["readable"] else 2)
             return
         if s["universe"] == "series":
             kids = s["children"]
@@ -525,8 +662,14 @@ def extra_checks(ctx):
             tags[t] = tags.get(t, 0) + 1
     need = ["rule:own-terms-read", "comp:nonempty", "shifts:IndexError"] + [
         "rule:%s:form%d" % (u, f) for u in ("series", "words") for f in range(4)] + [
-        "rule:derived:" + d for d in ("equiv", "equiv_rev", "path")]
+        "rule:derived:" + d for d in ("equiv", "equiv_rev", "path")] + [
+        "rule:derived:%s:%s" % (d, u) for d in ("equiv", "equiv_rev", "path") for u in ("series", "words")] + [
+        "rule:derived:%s:%s-strategy" % (d, k) for d in ("equiv", "equiv_rev", "path") for k in ("union", "product")] + [
+        "rule:derived:equiv:empty-siblings", "rule:derived:equiv_rev:empty-siblings",
+        "rule:derived:path:reverse-step:series", "rule:derived:path:reverse-step:words",
+        "rule:derived:path:mixed-directions", "rule:derived:shifts-only"]
     missing = [t for t in need if not tags.get(t)] if len(ctx.cases) >= 400 else []
-    checks.append(("generator reaches every rule form, own-term reads, negative shifts", not missing,
+    checks.append(("generator reaches every rule form (plain, reversed, equivalence, reverse-of-equivalence, paths "
+                   "with reverse steps, product equivalences), own-term reads, negative shifts", not missing,
                    "never generated: %s" % missing if missing else "ok"))
     return checks
